@@ -331,3 +331,85 @@ func instrDominates(a, b ssa.Instruction) bool {
 	}
 	return a.Block().Dominates(b.Block())
 }
+
+// thenAlways: b runs after a whenever either runs (a dominates b and b
+// post-dominates a). This is what "in the same step" means for two statements;
+// it does not depend on how many blocks an unrelated statement in between
+// (a guarded log line, say) splits the code into.
+func thenAlways(a, b ssa.Instruction) bool {
+	if a.Parent() != b.Parent() {
+		return false
+	}
+	if a.Block() == b.Block() {
+		return instrIndex(a) < instrIndex(b)
+	}
+	fi := info(a.Parent())
+	return a.Block().Dominates(b.Block()) && fi.postDominates(b.Block().Index, a.Block().Index)
+}
+
+// together: a and b run on exactly the same executions, in either order.
+func together(a, b ssa.Instruction) bool {
+	if a.Parent() != b.Parent() {
+		return false
+	}
+	return a.Block() == b.Block() || thenAlways(a, b) || thenAlways(b, a)
+}
+
+// leadsInto: block b is one of the given blocks, or always runs into one of
+// them (it dominates it and is post-dominated by it).
+func leadsInto(set map[*ssa.BasicBlock]bool, b *ssa.BasicBlock) bool {
+	if set[b] {
+		return true
+	}
+	fi := info(b.Parent())
+	for t, ok := range set {
+		if ok && b.Dominates(t) && fi.postDominates(t.Index, b.Index) {
+			return true
+		}
+	}
+	return false
+}
+
+// afterLoop: blk lies behind a loop of its function (some loop header
+// dominates it) and not inside that loop's body — it is reached only by the
+// loop running out or being left.
+func afterLoop(blk *ssa.BasicBlock) bool {
+	ok := false
+	for _, h := range blk.Parent().Blocks {
+		if !isLoopHeader(h) || !h.Dominates(blk) || h == blk {
+			continue
+		}
+		inside := false
+		for _, body := range h.Succs {
+			if reachableBlocks(body)[h] && (body == blk || body.Dominates(blk)) {
+				inside = true
+			}
+		}
+		if inside {
+			return false
+		}
+		ok = true
+	}
+	return ok
+}
+
+// decidingBranch: the nearest branch that decides whether blk runs — the
+// closest strict dominator d ending in an If that blk does not post-dominate —
+// and the successor of d that leads away from blk. Branches in front of blk
+// that rejoin before it (an unrelated `if` without effect on reaching blk) are
+// passed over.
+func decidingBranch(blk *ssa.BasicBlock) (d, other *ssa.BasicBlock) {
+	fi := info(blk.Parent())
+	for x := blk.Idom(); x != nil; x = x.Idom() {
+		if len(x.Succs) != 2 || fi.postDominates(blk.Index, x.Index) {
+			continue
+		}
+		for i, s := range x.Succs {
+			if s == blk || s.Dominates(blk) {
+				return x, x.Succs[1-i]
+			}
+		}
+		return nil, nil
+	}
+	return nil, nil
+}
